@@ -252,6 +252,52 @@ def visits_each_in_order(model: Model, cls: ClassInfo, func: ast.FunctionDef, so
     return False
 
 
+def alpha(func: ast.FunctionDef, inline: bool = False) -> str:
+    """Source text of `func`'s body with every name it binds replaced by a positional one: parameters p0, p1, ..
+    (the first parameter stays `self` when it is called self/cls), locals v0, v1, .. in order of first binding.
+    Two functions that differ only in how locals / parameters are called have the same alpha text.  With
+    inline=True single-assignment pure locals are inlined first (see local_env)."""
+    f = copy.deepcopy(func)
+    if inline:
+        env = local_env(f)
+        if env:
+            class _Drop(ast.NodeTransformer):
+                def visit_Assign(self, n):
+                    if len(n.targets) == 1 and isinstance(n.targets[0], ast.Name) and n.targets[0].id in env:
+                        return None
+                    return self.generic_visit(n)
+
+            f = _Subst(env).visit(f)
+            f = _Drop().visit(f)
+            for n in ast.walk(f):
+                if hasattr(n, "body") and isinstance(n.body, list) and not n.body:
+                    n.body = [ast.Pass()]
+            ast.fix_missing_locations(f)
+    mapping = {}
+    args = f.args.posonlyargs + f.args.args + f.args.kwonlyargs
+    k = 0
+    for i, a in enumerate(args):
+        if i == 0 and a.arg in ("self", "cls"):
+            continue
+        mapping[a.arg] = f"p{k}"
+        k += 1
+    stores = sorted(((n.lineno, n.col_offset, n.id) for n in ast.walk(f) if isinstance(n, ast.Name) and isinstance(n.ctx, ast.Store)), key=lambda t: (t[0], t[1]))
+    j = 0
+    for _, _, name in stores:
+        if name not in mapping:
+            mapping[name] = f"v{j}"
+            j += 1
+    for n in ast.walk(f):
+        if isinstance(n, ast.Name) and n.id in mapping:
+            n.id = mapping[n.id]
+        elif isinstance(n, ast.arg) and n.arg in mapping:
+            n.arg = mapping[n.arg]
+        elif isinstance(n, ast.ExceptHandler) and n.name in mapping:
+            n.name = mapping[n.name]
+    body = [s for s in f.body if not (isinstance(s, ast.Expr) and isinstance(s.value, ast.Constant))]
+    return " ".join(unparse(ast.Module(body=body, type_ignores=[])).split())
+
+
 def appends_once_per_iteration(loop: ast.For, listname: str):
     """-> (ok, why): on every path through the loop body (also those leaving through `continue`) exactly one element is
     appended to `listname`; `break`/`return` inside the body count as a violation."""
